@@ -194,3 +194,19 @@ Proof.
   intros body m Hb. rewrite <- (app_nil_r body).
   apply (type_tool_engine_data_roundtrip units t 4 x d bs body m [] Ht Hwf W HW HF Hb).
 Qed.
+
+(* ====================================================================== the Txt2 block *)
+(* TEXT_ENGINE_DATA ('Txt2') tagged block: its payload IS an EngineData2 object (tagged_blocks.TYPES): TaggedBlock.write
+   serialises it into the length block with the count its write() returns, TaggedBlock.read hands the bytes to
+   EngineData2.frombytes.  Round trip of the whole block, for every well-formed tree. *)
+Theorem text_engine_data_block_roundtrip : forall v pad sg key d blk n rest,
+  (pad = 1 \/ pad = 2 \/ pad = 4) -> memz sg model_tb_sigs = true -> wf_tree (TDict d) = true ->
+  write_payload_block v pad sg key (engine_w Compact d) = Ok (blk, n) ->
+  read_payload_block parse v pad (blk ++ rest) = Ok (Some (sg, key, untiny_kvs d, rest)).
+Proof.
+  intros v pad sg key d blk n rest Hpad Hsg W H.
+  apply (payload_block_rt v pad sg key (engine_w Compact d) parse (untiny_kvs d) blk n rest Hpad Hsg
+           (engine_w_truthful Compact d)); [|exact H].
+  intros body m Hb. destruct (parse_write_compact d W) as (bs & H1 & H2).
+  rewrite (engine_w_bytes _ _ _ H1) in Hb. apply w_bytes_inv in Hb as [-> _]. exact H2.
+Qed.
